@@ -532,8 +532,13 @@ def gen_c01(rng, idx):
             items.append(("U", p))
         elif x < 0.5:
             items.append(("T", p, rng.choice(pool)))
-        elif x < 0.75:
+        elif x < 0.72:
             items.append(("recheck", gen_opts(rng, "recheck", 0.3), [p] if rng.random() < 0.6 else list(paths)))
+        elif x < 0.8:
+            # the workspace copy is gone when a commit command meets the path (the code stops with a length
+            # assertion; whatever it does instead, the committed content must survive: the probes follow)
+            items.append(("D", p))
+            items.append(("carry", {"f": rng.random() < 0.5}, [p] if rng.random() < 0.7 else list(paths)))
         else:
             items.append(("track", gen_opts(rng, "track", 0.1), list(paths)))
     for p in paths:              # the probes
